@@ -104,3 +104,52 @@ func GoodWithDefer(w io.Writer, done func()) (err error) {
 	_, err = io.WriteString(w, "tail\n")
 	return err
 }
+
+// sticky error writers
+type goodEW struct {
+	w   io.Writer
+	err error
+}
+
+func (e *goodEW) Write(p []byte) (int, error) {
+	if e.err != nil {
+		return 0, e.err
+	}
+	var n int
+	n, e.err = e.w.Write(p)
+	return n, e.err
+}
+
+type badEW struct {
+	w   io.Writer
+	err error
+}
+
+func (e *badEW) Write(p []byte) (n int, err error) {
+	n, e.err = e.w.Write(p)
+	return n, e.err
+}
+
+func GoodStickyWriter(w io.Writer, n int) error {
+	ew := &goodEW{w: w}
+	io.WriteString(ew, "head\n")
+	for i := 0; i < n; i++ {
+		fmt.Fprintf(ew, "%d\n", i)
+	}
+	return ew.err
+}
+
+func BadStickyWriter(w io.Writer, n int) error {
+	ew := &badEW{w: w}
+	io.WriteString(ew, "head\n")
+	for i := 0; i < n; i++ {
+		fmt.Fprintf(ew, "%d\n", i)
+	}
+	return ew.err
+}
+
+func BadStickyIgnored(w io.Writer) error {
+	ew := &goodEW{w: w}
+	io.WriteString(ew, "head\n")
+	return nil
+}
